@@ -205,6 +205,12 @@ async def op(rec: Recorder, name: str, tmo: float | None, coro: Any) -> tuple[st
     except asyncio.CancelledError:
         rec.add("End", op=name, res="Hang", d=[])
         raise
+    except vloop.Stuck:
+        # the operation kept the event loop busy without ever suspending: it never ends (and freezes every other task)
+        # (the scenario ends here: an exception raised asynchronously inside asyncio's own timeout bookkeeping can
+        # leave stray timers behind, nothing after it would be trustworthy)
+        rec.add("End", op=name, res="Hang", d=[])
+        raise
     except BaseException as e:  # noqa: BLE001
         res = classify(e)
         if res == "Other":
@@ -300,8 +306,8 @@ def reconnect_case(tk: str, kind: str, tmo: float, restart_ms: int | None) -> di
 
 
 def client_case(tk: str, cut_at: int, kind: str, retries: int, restart_ms: int | None, cut_delay_ms: int,
-                warm: int = 0, follow_up: bool = False, via_config: bool = False, mute_handshake: int = 0
-                ) -> dict[str, Any]:
+                warm: int = 0, follow_up: bool = False, via_config: bool = False, mute_handshake: int = 0,
+                real_limit: float | None = 900.0) -> dict[str, Any]:
     """via_config: the retry budget is given per request (UDSRequestConfig.max_retry, as the scanners do) on a
     client whose own budget is 0, instead of through the constructor."""
     rec = Recorder()
@@ -329,8 +335,8 @@ def client_case(tk: str, cut_at: int, kind: str, retries: int, restart_ms: int |
         await settle()
 
     try:
-        vloop.run(main(), horizon=600)
-    except (TimeoutError, vloop.BlockedForever):
+        vloop.run(main(), horizon=600, real_limit=real_limit)
+    except (TimeoutError, vloop.BlockedForever, vloop.Stuck):
         last = next((e for e in reversed(rec.ev) if e["e"] in ("Begin", "End")), None)
         if last is not None and last["e"] == "Begin":
             rec.ev.append({"e": "End", "t": last["t"], "op": last["op"], "res": "Hang", "d": []})
@@ -446,6 +452,16 @@ def run(tier: str, seed: int) -> Report:
                             add(client_case(tk, k, kind, R, restart, 0, warm=1))
                         elif k % 6 == 0 and restart in (0, None):
                             add(client_case(tk, k, kind, R, restart, 0, warm=1))
+        # late loss: the peer takes the request, stays silent PAST the client's timeout (1 s) and only then closes /
+        # resets the connection; the request (its retries) and a follow-up request run into a connection that died
+        # while nobody was reading.  real_limit: an operation that keeps the loop busy without suspending is a Hang.
+        for kind in ("EOF", "Reset"):
+            for delay in ((1100, 1500) if tier == "quick" else (1050, 1100, 1300, 1500, 2500, 4000)):
+                for R in (0, 1, 2):
+                    for restart in ((0,) if tier == "quick" else (0, 100, 3000)):
+                        add(client_case(tk, 0, kind, R, restart, delay, follow_up=True, real_limit=10.0))
+                        if tier == "thorough":
+                            add(client_case(tk, 0, kind, R, restart, delay, warm=1, follow_up=True, real_limit=10.0))
     verdicts, results = validate(traces)
     for r in results:
         rep.add_tlc(r, "Trace_Loss batch")
